@@ -241,8 +241,11 @@ pub fn boundary_i32(rng: &mut Rng) -> i32 {
     }
 }
 
+/// lengths at which the length prefix (a zig-zag varint) changes its number of bytes
+const VARINT_EDGE_LENS: [usize; 6] = [63, 64, 65, 127, 8191, 8192];
+
 fn rand_bytes(rng: &mut Rng, maxlen: usize) -> Vec<u8> {
-    let n = match rng.below(5) { 0 => 0, 1 => 1, _ => rng.below(maxlen + 1) };
+    let n = match rng.below(24) { 0..=4 => 0, 5..=9 => 1, 10 => *rng.pick(&VARINT_EDGE_LENS), _ => rng.below(maxlen + 1) };
     (0..n).map(|_| match rng.below(4) { 0 => 0, 1 => 255, 2 => 128, _ => rng.next() as u8 }).collect()
 }
 
@@ -252,6 +255,14 @@ fn rand_string(rng: &mut Rng) -> String {
     let mut s = String::new();
     for _ in 0..n {
         let p: &str = *rng.pick(&pool); s.push_str(p);
+    }
+    if rng.chance(1, 24) {
+        // a string whose UTF-8 length sits on a varint boundary of the length prefix
+        let target = *rng.pick(&VARINT_EDGE_LENS);
+        while s.len() < target {
+            let p: &str = *rng.pick(&["a", "é", "€", "😀"]);
+            if s.len() + p.len() <= target { s.push_str(p); } else { s.push('x'); }
+        }
     }
     s
 }
@@ -325,7 +336,10 @@ fn value_fuel(rng: &mut Rng, s: &J, env: &HashMap<String, J>, depth: usize, fuel
             json!({"t":"union","i":i,"v":value_fuel(rng, &bs[i], env, depth, fuel)})
         }
         "array" => {
-            let n = if depth == 0 || (fuel == 0 && sk(&s["items"]) == "ref") { 0 } else { *rng.pick(&[0usize, 1, 2, 3, 5]) };
+            let leafish = !matches!(sk(&s["items"]), "array" | "map" | "record" | "union" | "ref");
+            let n = if depth == 0 || (fuel == 0 && sk(&s["items"]) == "ref") { 0 }
+                    else if leafish && rng.chance(1, 16) { *rng.pick(&[63usize, 64, 65, 130]) }   // count needs two varint bytes
+                    else { *rng.pick(&[0usize, 1, 2, 3, 5]) };
             let items: Vec<J> = (0..n).map(|_| value_fuel(rng, &s["items"], env, depth - 1, fuel)).collect();
             json!({"t":"array","items":items})
         }
